@@ -20,5 +20,5 @@ RESIDUAL = "none beyond model fidelity; jsi_values are compared implementation a
 
 
 def families(tier, seed):
-    n = 120 if tier == "quick" else 1500
+    n = 300 if tier == "quick" else 8000
     return [("sweep", seed, n, [])]
